@@ -358,19 +358,25 @@ def streaming_case(max_n):
 
 def cases(tier, seed):
     ormgen.harness_dao()
-    n = 2 if tier == "quick" else 3
-    nseq = 4 if tier == "quick" else 7
     cs = []
-    for with_vecs in (False, True):
-        for sub0 in (0, 1):
-            for parent0, single0 in [(a, b) for a in range(n + 1) for b in range(3)]:
-                fixed = {"sub0": sub0, "parent0": parent0, "single0": single0}
-                if tier == "quick":
-                    # quick: the second target is a SubSubLeaf, a SubNode root is loaded through its base DAO when it has a
-                    # parent and through its own DAO otherwise (thorough explores every combination)
-                    fixed.update(leafclass0=(parent0 + single0) % 3, leafclass1=2 + (parent0 + sub0) % 2, load_via=(0 if parent0 > 0 else sub0))
-                nm = "persist graph|%s|node0=%s,parent0=%d,ref0=%d" % ("alt-mapped Vec targets" if with_vecs else "Leaf/SubLeaf/SubSubLeaf targets", ["Node", "SubNode"][sub0], parent0 - 1, single0 - 1)
-                cs.append(Case(nm + "|n=%d" % n, graph_case(n, with_vecs, fixed, nseq), key=nm, validate=0, timeout=900 if tier == "quick" else 3000, max_paths=300000))
+    # quick: 2 nodes; the second target is a SubSubLeaf / DeepLeaf, a SubNode root is loaded through its base DAO when it has a
+    # parent and through its own DAO otherwise. thorough: 2 nodes with the class of the first target and the load class free and
+    # 5 collection shapes ("wide"), and 3 nodes under the quick tier's rotation with the 2 shortest collection shapes ("deep");
+    # 3 nodes with everything free ran into every budget (measured)
+    plans = [(2, 4, "all")] if tier == "quick" else [(2, 5, "second"), (3, 2, "all")]
+    for n, nseq, rotate in plans:
+        for with_vecs in (False, True):
+            for sub0 in (0, 1):
+                for parent0, single0 in [(a, b) for a in range(n + 1) for b in range(3)]:
+                    fixed = {"sub0": sub0, "parent0": parent0, "single0": single0}
+                    if rotate == "all":
+                        fixed.update(leafclass0=(parent0 + single0) % 3, leafclass1=2 + (parent0 + sub0) % 2, load_via=(0 if parent0 > 0 else sub0))
+                    else:
+                        fixed.update(leafclass1=2 + (parent0 + sub0) % 2)
+                    nm = "persist graph|%s|node0=%s,parent0=%d,ref0=%d" % ("alt-mapped Vec targets" if with_vecs else "Leaf/SubLeaf/SubSubLeaf targets", ["Node", "SubNode"][sub0], parent0 - 1, single0 - 1)
+                    if tier != "quick":
+                        nm += "|deep" if n == 3 else "|wide"
+                    cs.append(Case(nm + "|n=%d" % n, graph_case(n, with_vecs, fixed, nseq), key=nm, validate=0, timeout=900 if tier == "quick" else 3000, max_paths=300000))
     cs.append(Case("persist rich scalars", rich_case(tier != "quick"), validate=0, timeout=900 if tier == "quick" else 3000))
     cs.append(Case("persist an alternatively mapped subclass behind base-typed fields", drawing_case(), key="drawing", validate=0, timeout=900))
     cs.append(Case("persist an alternatively mapped container and its subclasses inside a holder", bag_case(), key="bag", validate=0, timeout=900))
@@ -387,7 +393,7 @@ def describe(tier):
         "database with krrood's create_engine, adds to_dao(root), commits, opens a NEW session, loads through the root's own DAO class or a DAO base class (a symbolic "
         "choice), calls from_dao and compares: graph isomorphism incl. classes (polymorphic loading), sharing, order of collections, None positions, equal values, and "
         "row count per table == number of distinct objects of that class. Plus: an alternatively mapped subclass of a normally mapped class stored through fields typed with the base class; objects whose alternative mapping builds mapped helper objects on the fly, and several short-lived objects converted one after the other with one conversion state (object ids of dead temporaries are reused by CPython). Distinct = distinct shape vectors; non-trivial = every path persists at least one object",
-        bounds=dict(nodes=n, pool=2, scalar_values="2-3 values per field (incl. 0, '', False, empty list)", backend="sqlite in memory"),
+        bounds=dict(nodes=n if tier == "quick" else "2 with the first target's class and the load class free and 5 collection shapes; 3 with the quick tier's rotation and the 2 shortest collection shapes", pool=2, scalar_values="2-3 values per field (incl. 0, '', False, empty list)", backend="sqlite in memory"),
         outside=["other database back ends", "symbolic reasoning about SQLAlchemy's unit of work or sqlite (executed, not encoded)", "graphs of more than %d nodes" % n],
         assumptions=["rows are identified by distinct tag values", "the solver's role here is exhaustive, constraint-pruned enumeration of a finite shape space"],
         explanation="bounded exhaustive exploration driven by the symx engine; all symbolic variables are finite choices",
